@@ -904,9 +904,10 @@ fn case_strategy(_tier: Tier) -> BoxedStrategy<Case> {
     (
         (prop::bool::weighted(0.6), prop::bool::weighted(0.4), prop::bool::weighted(0.85), prop::bool::weighted(0.15)),
         prop::collection::vec(seed_create_strategy(), 0..=2),
+        prop::option::weighted(0.45, (prop::sample::select(vec![9u8, 2, 3, 10, 4]), 0u8..3, q_strategy())),
         prop::collection::vec(stmt_strategy(), 1..=10),
     )
-        .prop_map(|((pre_s1, pre_c1, pre_c1s1, pre_qs1), seeds, rest)| {
+        .prop_map(|((pre_s1, pre_c1, pre_c1s1, pre_qs1), seeds, seed_view, rest)| {
             let mut stmts = vec![];
             if pre_s1 {
                 stmts.push(Stmt::CreateSchema { schema: 0, if_not_exists: false });
@@ -920,7 +921,11 @@ fn case_strategy(_tier: Tier) -> BoxedStrategy<Case> {
                     stmts.push(Stmt::CreateSchema { schema: 3, if_not_exists: false });
                 }
             }
+            let have_seed = !seeds.is_empty();
             stmts.extend(seeds);
+            if let (true, Some((pick, nth, q))) = (have_seed, seed_view) {
+                stmts.push(Stmt::CreateView { name: NameSel { existing: false, pick, spell: 0 }, or_replace: false, src: NameSel { existing: true, pick: nth, spell: 0 }, q });
+            }
             stmts.extend(rest);
             stmts.truncate(MAX_STMTS);
             Case { stmts }
